@@ -71,13 +71,18 @@ def cases(draw):
         events = [[draw(st.sampled_from(list(range(n))))]]
     return {"n": n, "edges": sorted(edges), "colors": draw(st.integers(2, 3)), "k": k, "spare": spare,
             "algo": draw(st.sampled_from(["dsa", "mgm"])), "events": events,
-            "hosting": draw(st.lists(st.sampled_from([0, 1, 2, 5]), min_size=na, max_size=na)),
+            # hosting costs, small or (one case in four, for every agent) above 1000: the repair DCOP must still
+            # prefer hosting every orphaned computation once over saving hosting costs
+            "hosting": draw(st.lists(st.sampled_from([0, 1, 2, 5]) if draw(st.integers(0, 3)) else
+                                     st.sampled_from([3000, 2500, 4000]), min_size=na, max_size=na)),
             "route": draw(st.sampled_from([1, 1, 2, 0.5])),
             "switch_us": draw(st.sampled_from([5, 50, 500, 5000])),
             "naps": draw(st.lists(st.sampled_from([0, 0, 0, 0, 1, 2, 5]), min_size=8, max_size=8)),
             # pause between deployment and the replication request: 0 is what `pydcop run` does (agents may not know
             # yet where their neighbours are hosted, see the listed findings); 300 ms lets the run reach the repair
             "settle_ms": draw(st.sampled_from([0, 300, 300])),
+            # a removed agent may be slow to shut down: its un-publications then reach the directory after the repair
+            "slow_stop_ms": draw(st.sampled_from([0, 0, 400])),
             "rng_seed": draw(st.integers(0, 10 ** 6))}
 
 
@@ -229,6 +234,13 @@ def run_case(case):
         disc_mod.Discovery.register_computation = dreg
         disc_mod.Discovery.unregister_computation = dunreg
         oa_mod.OrchestratedAgent.__init__ = init
+        orig_on_stop = oa_mod.OrchestratedAgent._on_stop
+
+        def slow_on_stop(self):
+            if case.get("slow_stop_ms") and self.name in removed:
+                time.sleep(case["slow_stop_ms"] / 1000.0)
+            return orig_on_stop(self)
+        oa_mod.OrchestratedAgent._on_stop = slow_on_stop
         orch_mod.AgentsMgt._agents_removal = removal
         orch_mod.AgentsMgt._dump_repair_metrics = dump
         out_buf = None
@@ -291,6 +303,7 @@ def run_case(case):
             disc_mod.Discovery.register_computation = orig_dreg
             disc_mod.Discovery.unregister_computation = orig_dunreg
             oa_mod.OrchestratedAgent.__init__ = orig_init
+            oa_mod.OrchestratedAgent._on_stop = orig_on_stop
             orch_mod.AgentsMgt._agents_removal = orig_removal
             orch_mod.AgentsMgt._dump_repair_metrics = orig_dump
         ctx = "edges %r, k=%d, agents %d, events %r" % (case["edges"], k, na, [[anames[g] for g in ev]
